@@ -16,7 +16,8 @@ PROJECT_FLAGS = ("-O2 -g -D_GNU_SOURCE=1 -std=c99 -w -mmmx -DINTEL_MMX -msse -DI
                  "-msse2 -DINTEL_SSE2 -msse3 -DINTEL_SSE3 -mssse3 -DINTEL_SSSE3 -msse4.1 "
                  "-DINTEL_SSE41 -msse4.2 -DINTEL_SSE42 -mavx -DINTEL_AVX -DARCH_64 -fPIC").split()
 
-WRAP = "-Wl,--wrap=malloc,--wrap=calloc,--wrap=realloc,--wrap=free,--wrap=posix_memalign,--wrap=strdup"
+WRAP = ("-Wl,--wrap=malloc,--wrap=calloc,--wrap=realloc,--wrap=free,--wrap=posix_memalign,--wrap=strdup,"
+        "--wrap=aligned_alloc,--wrap=memalign,--wrap=valloc,--wrap=strndup,--wrap=reallocarray,--wrap=asprintf,--wrap=vasprintf")
 
 LIBS = {
     "libXorcode.so.1": ["src/builtin/xor_codes/xor_code.c", "src/builtin/xor_codes/xor_hd_code.c"],
